@@ -49,13 +49,18 @@ TRUSTED_BASE = [
     "PTR_EXCEPTIONS / NAME_EXCEPTIONS",
     "ASCII case folding stands for str.lower() in make_table_key",
     "harness/dxfparse.py + the tag-level record comparison of harness/props/c17.py (oracle side)",
-    "the handle allocation of CopyMachine/factory.bind enters the graph theorems as hypothesis WF (injective, fresh, non-null)",
+    "the handle allocation of CopyMachine/factory.bind: WF is no longer a free hypothesis (copy_machine_wf derives it from the model registerInto / "
+    "allocate and from 'the generator hands out distinct handles not below a seed above all target handles'); that assumption and WF itself are "
+    "checked on the allocation of every real Loader run of X4 by the proven checkers wfB / allocOkB (stream X7)",
 ]
 ASSUMPTIONS = [
     "target DXF version >= source DXF version (documented precondition of the Loader); DXF R12 sources go into every target version",
     "generated names are ASCII and free of backslashes; source documents pass doc.audit() before the transfer",
 ]
 OPEN = [
+    "final round: WF and RegsOk are derived (copy_machine_wf, regs_ok_of_keep / regs_ok_of_renaming, transfer_closed_no_free_hypothesis); what is left as "
+    "hypothesis are statements about the inputs (valid target, distinct fresh handles, distinct names in one source table); regsOf is definitional glue "
+    "between the decisions of section 4 and the registration list of section 5 (both sides tied separately by X3 and X4)",
     "the override table is a statement-level abstraction: opaque / delegated statements (MLEADER context, ACIS conversion, Dictionary entry recursion, "
     "set_required_attributes) have no semantics in the model; handle data outside DXF attributes (GROUP, HATCH paths, SORTENTSTABLE rows, DICTIONARY entries) "
     "is covered by @field events and the oracle, not by registered_types_closed",
@@ -2311,6 +2316,9 @@ def abstract_node(e, db):
     return k, hx(e.dxf.owner) if e.dxf.owner else 0, ptrs, b, en, content
 
 
+WF_CASES: list = []
+
+
 def corr_transfer(ctx, cases):
     """X4: the abstract transfer of Model/Xref.lean §5 against real Loader runs: which copies survive, the redirected
     handle mapping, the XDATA handle fields of every copy, BLOCK/ENDBLK/content of every copied block record"""
@@ -2318,6 +2326,7 @@ def corr_transfer(ctx, cases):
                                 MLeaderStyle, VisualStyle)
 
     rng = ctx.rng("x4")
+    del WF_CASES[:]
     tmp = tempfile.TemporaryDirectory(dir=str(ctx.scratch))
     n = ctx.n(70, 700)
     ops = ["msp", "msp_filter", "loader_mix", "block_into", "resources", "psp"]
@@ -2373,6 +2382,8 @@ def corr_transfer(ctx, cases):
         # the copies the loading commands put into a layout: the entities the harness asked to load
         placed = [int(alloc[h], 16) for h in (loaded.get("loaded") or []) if h in alloc]
         req = f"tr|{';'.join(snodes)}|{';'.join(tnodes)}|{sig}|{';'.join(regs)}|{' '.join(map(str, placed))}"
+        # X7: the allocation the REAL CopyMachine made, judged by the proven checkers of WF and of the assumptions of copy_machine_wf
+        WF_CASES.append((f"wf|{';'.join(snodes)}|{';'.join(tnodes)}|{sig}", "wf alloc-ok", len(alloc) > 1))
         if err:
             impl = err
         else:
@@ -2584,6 +2595,8 @@ def correspond(ctx):
         ctx.correspond(name, "C17", cases, build=DRIVER_DEPS)
         if fn is corr_policy:
             ctx.correspond("X6 policy spec on real decisions", "C17", list(SPEC_CASES))
+        if fn is corr_transfer:
+            ctx.correspond("X7 WF of the real CopyMachine allocation", "C17", list(WF_CASES))
 
 
 # ================================================================== oracle
